@@ -8,9 +8,13 @@
 //   rel14f <n> <r phi z>*n          Track::try_from(Cluster::verif_from_points(points)), n >= 3
 //   rel14v <k> <x0 y0 z0 r phi0 h t_inner t_outer>*k      find_vertices on tracks built by Track::verif_from_params
 //   rel14kf-tinyphi-p / rel14kf-tinyphi-f <n> <r phi z>*n     the oracles of rel14p / rel14f on the class of the OPEN
-//                                   FINDING `tinyphi` (all |phi| <= 1e-160 rad, not exactly collinear: the cluster is
-//                                   straight to better than 1e-155 m, the initial circle has a radius > 1e154 m and
-//                                   closest_t evaluates inf/inf): the unchanged tree panics on these
+//                                   FINDING `tinyphi` (F9).  The tag is NOT the generator's intent: every point set,
+//                                   whatever family produced it, is tagged by the checked recogniser `tinyphi_class`
+//                                   below (template-point circle of radius >= 1e136 m, not exactly collinear in the
+//                                   sense of the code), and `observe_line` recomputes it: a line that claims the tag
+//                                   for a set outside the class is answered `fails not-in-class-tinyphi`.
+//   cls14 <n> <r phi z>*n           differential: the recogniser itself (`tinyphi` / `ordinary`) against the extracted
+//                                   Coq definition Fit.tinyphi_class (same operations in the same order)
 //   fit3 <n> <r phi z>*n            differential: `noinit` / `track` of Track::try_from against the model of
 //                                   three_template_points (coq/Recon/Fit.v: fit_outcome)
 // floats are 16 hex digits of the bit pattern.
@@ -26,6 +30,45 @@ use std::f64::consts::PI;
 use uom::si::length::meter;
 
 pub type P3 = [f64; 3];
+
+// ------------------------------------------------------------------------------------------------
+// panics: the observation names the panic (message and source location), so that different panic mechanisms are
+// distinguishable: `fails panic:<first 60 characters of the message> @<file>:<line>`
+// ------------------------------------------------------------------------------------------------
+thread_local! {
+    static LAST_PANIC: std::cell::RefCell<String> = std::cell::RefCell::new(String::new());
+}
+static HOOK: std::sync::Once = std::sync::Once::new();
+
+/// run f catching panics; Err(description of the panic) on panic.  Installs (once) a silent panic hook that records
+/// message and location of the panic of the current thread.
+pub fn catch_msg<T>(f: impl FnOnce() -> T + std::panic::UnwindSafe) -> Result<T, String> {
+    HOOK.call_once(|| {
+        std::panic::set_hook(Box::new(|info| {
+            let msg = if let Some(s) = info.payload().downcast_ref::<&str>() {
+                s.to_string()
+            } else if let Some(s) = info.payload().downcast_ref::<String>() {
+                s.clone()
+            } else {
+                "<non-string payload>".to_string()
+            };
+            let msg: String = msg.chars().map(|c| if c.is_control() { ' ' } else { c }).take(60).collect();
+            let loc = match info.location() {
+                Some(l) => format!("{}:{}", l.file().rsplit('/').next().unwrap_or(""), l.line()),
+                None => "?".to_string(),
+            };
+            LAST_PANIC.with(|p| *p.borrow_mut() = format!("{msg} @{loc}"));
+        }));
+    });
+    LAST_PANIC.with(|p| p.borrow_mut().clear());
+    match std::panic::catch_unwind(f) {
+        Ok(v) => Ok(v),
+        Err(_) => Err(LAST_PANIC.with(|p| p.borrow().clone())),
+    }
+}
+fn panic_obs(m: String) -> (String, String) {
+    (format!("fails panic:{m}"), "panic".to_string())
+}
 
 fn in_range(t: f64) -> bool {
     t >= -PI && t <= PI
@@ -75,13 +118,158 @@ fn vertex_defect(tracks: Vec<Track>) -> Option<String> {
     None
 }
 
+// ------------------------------------------------------------------------------------------------
+// the class of the open finding `tinyphi` (F9): a CHECKED RECOGNISER on the point set
+// ------------------------------------------------------------------------------------------------
+// MEASURED on the unchanged implementation (Track::try_from on 3, 14, 17 and 20 near-collinear points, radii on a grid
+// and random in 0.105..0.2 m, phi_i = phi0 + s*u_i with u_i uniform in [-1, 1], s from 1e-300 to 1e-19 rad in steps of
+// 1/2 and 1/4 decade, phi0 in {0, 1e-250, 1e-160, 1e-145, 1e-135, 1e-130, 1e-128 .. 1e-100, 1e-30, 0.3, pi/2, pi, -2.5},
+// z equal / steps of 1e-300 m / steps of 0.1 mm .. 1 cm; 3.5e5 fits).  Every failure is the SAME panic, `found NaN in
+// track_fitting::cost_function` (track_fitting.rs:265), raised either while NelderMead::init evaluates the initial
+// simplex (corpus witness at 1e-165 rad) or later from NelderMead::next_iter (reviewer's witness at 1e-146 rad).
+// What decides is the radius R of the circle through the three template points (the initial guess of the fit),
+// whatever produced it -- an angular scatter s around phi = 0, or the rounding of r*cos(phi), r*sin(phi) for a common
+// tiny phi (phi0 = 1e-130 with s = 0 fails like s = 1e-147):
+//   equal z (or z steps of 1e-300 m):  no failure among 2.0e4 fits with 1e130 <= R < 10^137.5 m; the smallest failing
+//                                      radius is 10^137.5 m; 99.9 % fail for 1e138 <= R < 1e148 m (a few fits survive,
+//                                      up to R = 1e147 m); all fail above
+//   unequal z:                         3 failures among 8.6e3 fits with 1e138 <= R < 1e144 m (14 points, at R =
+//                                      10^138.7 .. 1e140 m), none among 4.0e3 with 1e144 <= R < 1e152 m; all fail for
+//                                      R >= 10^153.4 m
+//   in terms of the angular scatter    equal z fails for s <= 10^-137.5 rad (all but about 1 in 300 for s <= 1e-140),
+//   (phi0 = 0):                        unequal z for s <= 10^-154.5 rad; nothing fails for s >= 1e-137 rad, and nothing
+//                                      fails for |phi0| >= 1e-100 at any s
+// Exactly collinear template points (the code's own test, NoInitialParameters) never panic.
+// The class is therefore:  the template points are not collinear in the sense of the code, and the circle through them
+// has radius R >= R_CLASS = 1e136 m (1.5 decades below the smallest failing radius seen; the boundary is fuzzy because
+// it depends on where Nelder-Mead wanders in at most 100 iterations).  Sets with R just below (1e129 <= R < 1e136 m,
+// label `guard`) are ordinary cases that must hold.
+pub const R_CLASS: f64 = 1e136;
+
+/// Veltkamp / Dekker: the rounding error of the product p = fl(a * b), by plain f64 operations (no fma), so that the
+/// Coq definition (Fit.two_prod_err) performs the same operations
+fn two_prod_err(a: f64, b: f64, p: f64) -> f64 {
+    let split = |x: f64| -> (f64, f64) {
+        let c = 134217729.0 * x;
+        let hi = c - (c - x);
+        (hi, x - hi)
+    };
+    let (ah, al) = split(a);
+    let (bh, bl) = split(b);
+    al * bl - (((p - ah * bh) - al * bh) - ah * bl)
+}
+
+/// the three template points as three_template_points (track_fitting.rs:129) selects them: smallest r (the first of
+/// equals), largest r (the last of equals), r closest to the mean of the two (the first of equals)
+fn template_indices(pts: &[P3]) -> Option<(usize, usize, usize)> {
+    if pts.len() < 3 || pts.iter().any(|p| p[0].is_nan()) {
+        return None;
+    }
+    let (mut first, mut last) = (0, 0);
+    for (i, p) in pts.iter().enumerate() {
+        if p[0] < pts[first][0] {
+            first = i;
+        }
+        if p[0] >= pts[last][0] {
+            last = i;
+        }
+    }
+    let mid = (pts[first][0] + pts[last][0]) / 2.0;
+    let mut middle = 0;
+    for (i, p) in pts.iter().enumerate() {
+        if (p[0] - mid).abs() < (pts[middle][0] - mid).abs() {
+            middle = i;
+        }
+    }
+    Some((first, middle, last))
+}
+
+/// None: fewer than 3 points / NaN radius / template points collinear in the sense of the code (track_fitting.rs:161);
+/// otherwise Some((num, cross)) with R = num / (2 cross) the radius of the circle through the template points
+/// (num = product of the three side lengths, cross = |twice the signed area|, exact up to its final rounding)
+fn template_circle(pts: &[P3]) -> Option<(f64, f64)> {
+    let (f, m, l) = template_indices(pts)?;
+    let sp = points_of(&[pts[f], pts[m], pts[l]]);
+    // x(), y() of the library: r * cos(phi), r * sin(phi)
+    let xy: Vec<(f64, f64)> = sp.iter().map(|p| (p.x().get::<meter>(), p.y().get::<meter>())).collect();
+    let (fx, fy, mx, my, lx, ly) = (xy[0].0, xy[0].1, xy[1].0, xy[1].1, xy[2].0, xy[2].1);
+    let (a, b, c, d) = (lx - fx, my - fy, mx - fx, ly - fy);
+    let (p1, p2) = (a * b, c * d);
+    if p1 == p2 {
+        return None;
+    }
+    let (e1, e2) = (two_prod_err(a, b, p1), two_prod_err(c, d, p2));
+    let cross = ((p1 - p2) + (e1 - e2)).abs();
+    let side = |u: f64, v: f64| (u * u + v * v).sqrt();
+    let num = side(c, b) * side(lx - mx, ly - my) * side(a, d);
+    Some((num, cross))
+}
+
+/// the recogniser of the class `tinyphi`
+pub fn tinyphi_class(pts: &[P3]) -> bool {
+    match template_circle(pts) {
+        Some((num, cross)) => num >= 2.0 * R_CLASS * cross,
+        None => false,
+    }
+}
+
+/// band of the template circle radius, for the labels
+fn radius_band(pts: &[P3]) -> &'static str {
+    match template_circle(pts) {
+        None => "R=collinear",
+        Some((num, cross)) => {
+            let r = num / (2.0 * cross);
+            if num >= 2.0 * R_CLASS * cross {
+                "R>=1e136(class)"
+            } else if r >= 1e129 {
+                "R=1e129..1e136(guard)"
+            } else if r >= 1e100 {
+                "R=1e100..1e129"
+            } else if r >= 1e20 {
+                "R=1e20..1e100"
+            } else {
+                "R<1e20"
+            }
+        }
+    }
+}
+
+/// rel14p lines: some cluster the library finds in the point set is in the class
+fn pipeline_in_class(pts: &[P3]) -> bool {
+    let v = pts.to_vec();
+    catch(move || {
+        cluster_spacepoints(points_of(&v)).clusters.iter().any(|c| {
+            let q: Vec<P3> =
+                c.iter().map(|p| [p.r.get::<meter>(), p.phi.get::<uom::si::angle::radian>(), p.z.get::<meter>()]).collect();
+            tinyphi_class(&q)
+        })
+    })
+    .unwrap_or(false)
+}
+
+/// the tag of a fit line / a pipeline line, decided by the recogniser
+fn fit_tag(pts: &[P3]) -> &'static str {
+    if tinyphi_class(pts) {
+        "rel14kf-tinyphi-f"
+    } else {
+        "rel14f"
+    }
+}
+fn pipeline_tag(pts: &[P3]) -> &'static str {
+    if pipeline_in_class(pts) {
+        "rel14kf-tinyphi-p"
+    } else {
+        "rel14p"
+    }
+}
+
 pub fn points_of(v: &[P3]) -> Vec<SpacePoint> {
     v.iter().map(|p| spoint(p[0], p[1], p[2])).collect()
 }
 
 /// (observation, outcome class for the histogram)
 fn pipeline(pts: Vec<P3>) -> (String, String) {
-    let r = catch(move || {
+    let r = catch_msg(move || {
         let n = pts.len();
         let res = cluster_spacepoints(points_of(&pts));
         let total: usize = res.clusters.iter().map(|c| c.iter().count()).sum::<usize>() + res.remainder.len();
@@ -108,18 +296,18 @@ fn pipeline(pts: Vec<P3>) -> (String, String) {
         }
         ("holds".to_string(), format!("clusters={} tracks={} noinit={}", nclusters.min(3), nt.min(3), noinit.min(2)))
     });
-    r.unwrap_or_else(|| ("fails panic".to_string(), "panic".to_string()))
+    r.unwrap_or_else(panic_obs)
 }
 
 fn fit_only(pts: Vec<P3>) -> (String, String) {
-    let r = catch(move || match Track::try_from(Cluster::verif_from_points(points_of(&pts))) {
+    let r = catch_msg(move || match Track::try_from(Cluster::verif_from_points(points_of(&pts))) {
         Ok(t) => match track_defect(&t) {
             Some(d) => (format!("fails {d}"), "fail".to_string()),
             None => ("holds".to_string(), "ok-track".to_string()),
         },
         Err(TryTrackFromClusterError::NoInitialParameters) => ("holds".to_string(), "err-noinit".to_string()),
     });
-    r.unwrap_or_else(|| ("fails panic".to_string(), "panic".to_string()))
+    r.unwrap_or_else(panic_obs)
 }
 
 fn fit_class(pts: Vec<P3>) -> String {
@@ -131,7 +319,7 @@ fn fit_class(pts: Vec<P3>) -> String {
 }
 
 fn vertex_only(trs: Vec<[f64; 8]>) -> (String, String) {
-    let r = catch(move || {
+    let r = catch_msg(move || {
         let tracks: Vec<Track> = trs
             .iter()
             .map(|p| Track::verif_from_params([p[0], p[1], p[2], p[3], p[4], p[5]], p[6], p[7]))
@@ -146,7 +334,7 @@ fn vertex_only(trs: Vec<[f64; 8]>) -> (String, String) {
             None => ("holds".to_string(), class),
         }
     });
-    r.unwrap_or_else(|| ("fails panic".to_string(), "panic".to_string()))
+    r.unwrap_or_else(panic_obs)
 }
 
 pub fn parse_floats(f: &[&str]) -> Option<Vec<f64>> {
@@ -156,7 +344,7 @@ pub fn parse_floats(f: &[&str]) -> Option<Vec<f64>> {
 pub fn observe_line(line: &str) -> Option<String> {
     let f: Vec<&str> = line.split(' ').collect();
     match f[0] {
-        "rel14p" | "rel14f" | "fit3" | "rel14kf-tinyphi-p" | "rel14kf-tinyphi-f" => {
+        "rel14p" | "rel14f" | "fit3" | "cls14" | "rel14kf-tinyphi-p" | "rel14kf-tinyphi-f" => {
             let n: usize = f.get(1)?.parse().ok()?;
             if f.len() != 2 + 3 * n {
                 return None;
@@ -164,8 +352,14 @@ pub fn observe_line(line: &str) -> Option<String> {
             let v = parse_floats(&f[2..])?;
             let pts: Vec<P3> = v.chunks(3).map(|c| [c[0], c[1], c[2]]).collect();
             Some(match f[0] {
-                "rel14p" | "rel14kf-tinyphi-p" => pipeline(pts).0,
-                "rel14f" | "rel14kf-tinyphi-f" => fit_only(pts).0,
+                "rel14p" => pipeline(pts).0,
+                "rel14f" => fit_only(pts).0,
+                // the known-finding tags are honoured only for point sets the recogniser puts into the class
+                "rel14kf-tinyphi-p" if !pipeline_in_class(&pts) => "fails not-in-class-tinyphi".to_string(),
+                "rel14kf-tinyphi-f" if !tinyphi_class(&pts) => "fails not-in-class-tinyphi".to_string(),
+                "rel14kf-tinyphi-p" => pipeline(pts).0,
+                "rel14kf-tinyphi-f" => fit_only(pts).0,
+                "cls14" => (if tinyphi_class(&pts) { "tinyphi" } else { "ordinary" }).to_string(),
                 _ => fit_class(pts),
             })
         }
@@ -282,8 +476,9 @@ fn line_points(r: &mut Rng, n: usize, eps: f64) -> Vec<P3> {
             }
         }
         4 => {
-            // radial line at phi = 0 with an angular scatter far below the float resolution elsewhere, but above the
-            // class of the open finding `tinyphi` (<= 1e-144): circle radii up to 1e130 m
+            // radial line at phi = 0 with an angular scatter far below the float resolution elsewhere: circle radii up to
+            // 1e130 m (the whole range of scatters, the class of the open finding `tinyphi` and its boundary are the
+            // subject of `nearline_points`)
             let sc = log_uniform(r, 1e-130, 1e-19);
             let dz = r.pick(&[0.0, 0.01, 0.003, 1e-300]);
             let z0 = uniform(r, -1.0, 1.0);
@@ -352,20 +547,41 @@ fn origin_circle_points(r: &mut Rng, n: usize, eps: f64) -> Vec<P3> {
     out
 }
 
-/// class of the open finding `tinyphi`: a radial line at phi = 0 with an angular scatter of at most 1e-160 rad
-fn tinyphi_points(r: &mut Rng, n: usize) -> Vec<P3> {
-    let s = match r.below(3) {
-        0 => r.pick(&[1e-160, 1e-200, 1e-250, 1e-300]),
-        _ => log_uniform(r, 1e-300, 1e-160),
+/// near-collinear radial point sets over the WHOLE range of angular scatter: phi_i = phi0 + s * u_i, s log-uniform in
+/// 1e-300 .. 1e-19 rad (continuous: no gap between the class of the open finding `tinyphi` and the ordinary cases),
+/// phi0 = 0 or tiny (then the rounding of r*sin(phi0) is the scatter); z equal / steps of 1e-300 m / real steps.
+/// Which of them are in the class is decided afterwards by the recogniser, not here.
+fn nearline_points(r: &mut Rng, n: usize) -> Vec<P3> {
+    let s = match r.below(8) {
+        0 => r.pick(&[1e-300, 1e-250, 1e-200, 1e-160, 1e-150, 1e-146, 1e-140, 1e-138, 1e-137, 1e-136, 1e-130, 1e-100, 1e-19]),
+        1 | 2 => log_uniform(r, 1e-160, 1e-125),
+        _ => log_uniform(r, 1e-300, 1e-19),
     };
-    let dz = r.pick(&[0.0, 0.01, 0.003, 1e-300]);
+    let phi0 = match r.below(6) {
+        0 => log_uniform(r, 1e-300, 1e-100) * sign(r),
+        1 => log_uniform(r, 1e-135, 1e-110) * sign(r),
+        _ => 0.0,
+    };
+    nearline_with(r, n, s, phi0)
+}
+fn nearline_with(r: &mut Rng, n: usize, s: f64, phi0: f64) -> Vec<P3> {
+    let dz = r.pick(&[0.0, 0.0, 0.01, 0.003, 0.0001, 1e-300]);
     let z0 = uniform(r, -1.0, 1.0);
+    let grid = r.chance(1, 2);
+    let (r0, span) = (uniform(r, 0.105, 0.13), uniform(r, 0.02, 0.09));
     (0..n)
         .map(|i| {
-            let rr = if n <= 16 { 0.105 + 0.09 * i as f64 / n as f64 } else { uniform(r, 0.105, 0.2) };
-            [rr, s * uniform(r, -1.0, 1.0), (z0 + dz * i as f64).clamp(-ZMAX, ZMAX)]
+            let rr = if grid { r0 + span * i as f64 / n as f64 } else { uniform(r, 0.105, 0.2) };
+            [rr, phi0 + s * uniform(r, -1.0, 1.0), (z0 + dz * i as f64).clamp(-ZMAX, ZMAX)]
         })
         .collect()
+}
+/// boundary guard: the same shapes with the scatter chosen so that the template circle has a radius just BELOW the class
+/// (1e129 <= R < 1e136 m); the label is given by the measured radius, not by this intent
+fn guard_points(r: &mut Rng, n: usize) -> Vec<P3> {
+    // R ~ chord^2 / (8 * sagitta), sagitta ~ 0.15 m * s: s = 1e-3 / R
+    let s = 1e-3 / log_uniform(r, 1e129, 1e136);
+    nearline_with(r, n, s, 0.0)
 }
 
 fn dyadic_points(r: &mut Rng, n: usize) -> Vec<P3> {
@@ -547,7 +763,7 @@ pub fn run(tier: &str, seed: u64, s: &mut Sink) {
         let n = size(&mut r, max_n);
         let (pts, fam) = family(&mut r, n);
         let (obs, class) = pipeline(pts.clone());
-        s.put(&case_points("rel14p", &pts), &obs, &format!("pipeline:{fam}:{class}"), pts.len() >= 13);
+        s.put(&case_points(pipeline_tag(&pts), &pts), &obs, &format!("pipeline:{fam}:{class}"), pts.len() >= 13);
     }
     for _ in 0..n_fit {
         // the fit alone: cluster-sized point sets (3 ..), all degenerate families
@@ -561,7 +777,7 @@ pub fn run(tier: &str, seed: u64, s: &mut Sink) {
             pts = random_points(&mut r, 3);
         }
         let (obs, class) = fit_only(pts.clone());
-        s.put(&case_points("rel14f", &pts), &obs, &format!("fit:{fam}:{class}"), true);
+        s.put(&case_points(fit_tag(&pts), &pts), &obs, &format!("fit:{fam}:{class}"), true);
     }
     for _ in 0..n_vtx {
         let k = r.range(0, 8) as usize;
@@ -594,17 +810,28 @@ pub fn run(tier: &str, seed: u64, s: &mut Sink) {
         }
         s.put(&c, &obs, &format!("vertex:k={k}:{class}"), k >= 2);
     }
-    // the class of the open finding `tinyphi` under its own tags (a known-finding recogniser keys on the prefix rel14kf-)
-    for i in 0..(if thorough { 60 } else { 12 }) {
-        let n = if i % 2 == 0 { r.range(13, 24) as usize } else { r.range(3, 8) as usize };
-        let pts = tinyphi_points(&mut r, n);
-        if i % 2 == 0 {
+    // near-collinear sets over the whole range of angular scatter 1e-300 .. 1e-19 rad, and the boundary guard just below
+    // the class of the open finding `tinyphi`.  The tag (ordinary / known finding) is computed by the recogniser from the
+    // point set; the label names the measured band of the template circle radius.
+    for i in 0..(if thorough { 12000 } else { 1200 }) {
+        let n = match i % 4 {
+            _ if i % 6 == 1 => r.range(13, 24) as usize, // pipeline lines: cluster-sized
+            0 => 3,
+            1 => r.range(3, 8) as usize,
+            _ => r.range(13, 24) as usize,
+        };
+        let (pts, fam) = if i % 3 == 2 { (guard_points(&mut r, n), "guard-intent") } else { (nearline_points(&mut r, n), "nearline") };
+        let band = radius_band(&pts);
+        if i % 6 == 1 {
             let (obs, class) = pipeline(pts.clone());
-            s.put(&case_points("rel14kf-tinyphi-p", &pts), &obs, &format!("known-finding:tinyphi:pipeline:{class}"), true);
+            s.put(&case_points(pipeline_tag(&pts), &pts), &obs, &format!("{fam}:pipeline:{band}:{class}"), true);
         } else {
             let (obs, class) = fit_only(pts.clone());
-            s.put(&case_points("rel14kf-tinyphi-f", &pts), &obs, &format!("known-finding:tinyphi:fit:{class}"), true);
+            s.put(&case_points(fit_tag(&pts), &pts), &obs, &format!("{fam}:fit:{band}:{class}"), true);
         }
+        // the recogniser itself against its Coq definition
+        let cls = if tinyphi_class(&pts) { "tinyphi" } else { "ordinary" };
+        s.put(&case_points("cls14", &pts), cls, &format!("cls14:{band}"), true);
     }
     // hits of one wire in one pad row (same phi, same z, radii 0.1 mm .. 3 cm apart) at many azimuths: exactly
     // collinear through the axis in exact arithmetic, but the rounded x, y are not: either NoInitialParameters or a
@@ -618,7 +845,7 @@ pub fn run(tier: &str, seed: u64, s: &mut Sink) {
         pts.push([r1 + 0.002, phi, z]);
         pts.push([r1 + 0.028, phi, z]);
         let (obs, class) = if i % 5 == 0 { pipeline(pts.clone()) } else { fit_only(pts.clone()) };
-        let tag = if i % 5 == 0 { "rel14p" } else { "rel14f" };
+        let tag = if i % 5 == 0 { pipeline_tag(&pts) } else { fit_tag(&pts) };
         s.put(&case_points(tag, &pts), &obs, &format!("wire-row:{class}"), true);
     }
     // the same geometry reduced to its three template points (cheap: many azimuths); the subtended angle of the
@@ -630,7 +857,7 @@ pub fn run(tier: &str, seed: u64, s: &mut Sink) {
         let (d2, d3) = (r.pick(&[0.002, 0.001, 0.005, 0.0001]), r.pick(&[0.028, 0.02, 0.029, 0.01]));
         let pts: Vec<P3> = vec![[r1, phi, z], [r1 + d2, phi, z], [r1 + d3, phi, z]];
         let (obs, class) = fit_only(pts.clone());
-        s.put(&case_points("rel14f", &pts), &obs, &format!("wire-row-3:{class}"), true);
+        s.put(&case_points(fit_tag(&pts), &pts), &obs, &format!("wire-row-3:{class}"), true);
     }
     for _ in 0..n_fit3 {
         // the NoInitialParameters decision: small clusters of every family, so that ties and exact collinearity are common
